@@ -1734,7 +1734,13 @@ class Interp:
         return self.concat(parts)
 
     def e_Tuple(self, node, fr):
-        return STuple([self.eval(e, fr) for e in node.elts])
+        out = []
+        for e in node.elts:
+            if isinstance(e, ast.Starred):
+                out.extend(self.iterate(self.eval(e.value, fr)))      # (a, *b): b of known length
+            else:
+                out.append(self.eval(e, fr))
+        return STuple(out)
 
     def e_List(self, node, fr):
         if not node.elts and getattr(self, "empty_list_hook", None) is not None:
